@@ -111,7 +111,7 @@ class C13(PropBase):
         "c13_stats_refuted holds and the code shows it (known finding F-C13c)",
         "CFI rule order: the evaluator itself is C06's model; here the ORDER of application is a theorem for an arbitrary per-rule transformer "
         "(c13_cfi_rule_order_independent), the sort is pinned by the site scan, the arm64 instance is compared with the code (Q) and exercised (alias inputs)",
-        "MultiSymbolProvider::stats extends one map with each provider's map: order matters only if two providers report the same leaf name (not modelled)",
+
     ]
     manifest = {
         "text": "partial: theorems (Coq) for the order-sensitive cores — the proc_limits array and the evil-json certificate map render identically for "
